@@ -147,7 +147,7 @@ static long case_live0; /* live blocks before the case's tree was built */
 static void ser_case(cbor_item_t* item, const char* desc) {
   ncases++;
   cur_desc = desc;
-  alarm(20);
+  alarm(300);
   long live0 = case_live0;
   size_t size = cbor_serialized_size(item);
   unsigned char* b = NULL;
